@@ -22,6 +22,11 @@ def obligations(tier):
                  unwind=pm + 40, timeout=900 if tier == 'quick' else 2400, backend=PORTFOLIO, mem_gb=24,
                  desc='append NCH chunks (symbolic payload length 0..PMAX incl. zero-length) + close; independent forward decode',
                  bound='chunk count and max payload per rung label'))
+    o.append(Obl('O1_raw_framing_empty_middle_chunk', 'c04_raw.c', units=['raw.c'], stubs=['log_stub.c', 'membk.c', 'crcfun.c'],
+                 defines=['MODE_FRAMING=1', 'MEMBK_SIZE=256', 'ZERO_MIDDLE=1', 'NCH=3', 'PMAX=%d' % (6 if tier == 'quick' else 10)],
+                 unwind=pm + 40, timeout=900 if tier == 'quick' else 2400, backend=PORTFOLIO, mem_gb=24,
+                 desc='three chunks, the middle one without payload (as every track DEF chunk), first non-empty: same decoder; in particular payload_prev_length of the third chunk is 0',
+                 bound='3 chunks, payload lengths 5 / 0 / 0..PMAX (symbolic), all bytes and header fields symbolic'))
     o.append(ts_obl('O4_ts_levels_anno_D2_N5', False, 2, 5, timeout=900 if tier == 'quick' else 2400))
     if tier == 'thorough':
         o.append(ts_obl('O4_ts_levels_utc_D2_N7', True, 2, 7, timeout=3000, tiers=('thorough',)))
